@@ -3,17 +3,17 @@ import AvoVerif.Model.ISA
 namespace Avo.Drv.C17
 open Avo.Drv
 
-/-- `accept-det k n d1 … dn`: all digests (asm bytes, stub bytes, allocation, ISA) of the
-repeated compilations are equal, and none is a panic. -/
+/-- `accept-det k n d1 … dn`: all digests (`asm.stubs.alloc+isa`, or the error text) of the
+repeated generations are equal, and none is a panic (`Avo.Det.judge`; `acceptDet_sound` in Props/C17).
+The answer names the parts that differ. -/
 def handle : Handler
   | "accept-det" :: _ :: n :: ds => do
     let k ← n.toNat?
     if ds.length != k then none else
-    match ds with
-    | [] => some "ok"
-    | d :: rest =>
-      if d == "panic" then some "bad-panic"
-      else if rest.all (· == d) then some "ok" else some "bad-nondeterministic"
+    match Avo.Det.judge ds with
+    | none => some "ok"
+    | some "bad-nondeterministic" => some ("bad-nondeterministic:" ++ ",".intercalate (Avo.Det.differingParts ds))
+    | some v => some v
   | "isa" :: rest => do
     -- distinct ISA names of a function's instructions (in first-occurrence order) → the function's ISA list
     let (names, _) ← listOf strTok rest
